@@ -11,8 +11,10 @@
 //!       <max_uncles> <ba_interval_ms> <max_ancestors>                       -> ok
 //!   submit <tid> <t.i,t.i,..> <n_out> <fee>   tx `tid` spends outputs i of txs t (t=0: genesis cell i)   -> ok
 //!   wait <ms>                                                                -> ok
-//!   template                fetch a template now, seal it, have a copy node at the template's parent
-//!                           verify it (HeaderVerifier + process = full verification) -> ok
+//!   template [<bytes_limit> <proposals_limit> <max_version>]
+//!                           fetch a template now (optionally with get_block_template's argument limits), seal
+//!                           it, have a copy node at the template's parent verify it (HeaderVerifier + process =
+//!                           full verification) -> ok
 //!   mine <sync>             the same, then the main node and the other copies process the block;
 //!                           sync=1: wait until the pool has processed the new tip     -> ok
 //!   fork <back> <extra> <nprop> <ncommit> <sync>   ChainBuilder branch from `back` blocks below the tip,
@@ -25,12 +27,14 @@
 //!       ent <id> <proposed> <size> <cycles> <fee> <anc_count> <anc_size> <anc_cycles> <anc_fee>
 //!           <key.fee> <key.weight> <key.anc_fee> <key.anc_weight> <tie> <parents> <children>   -> ok   (slab order)
 //!       closure <id>        -> anc=<sorted calc_ancestors> desc=<sorted calc_descendants>
-//!       hyp                 -> links=<0|1> agg=<0|1> key=<0|1>   (the theorems' hypotheses on this pool)
+//!       hyp                 -> links=<0|1> exact=<0|1> agg=<0|1> key=<0|1>   (the theorems' hypotheses on this pool:
+//!                              LinksOk, LinksExact, AggExact, KeysOk)
 //!       select <sl> <cl>    -> <ids in output order|-> size=<n> cycles=<n>     (when hyp is all 1)
 //!       select-stale <sl> <cl> -> stale      (when hyp fails: the real result then depends on HashSet
 //!                                             iteration order; only the oracle judges such probes)
 //!     (`pool`, `ent`, `closure`, `hyp` lines are derived data: ignored when replayed, `select` regenerates them)
-//!   make <tid> <t.i,..> <n_out> <fee>   build tx `tid` WITHOUT submitting it                       -> ok
+//!   make <tid> <t.i,..> <n_out> <fee> [<pad>]   build tx `tid` WITHOUT submitting it (pad: extra bytes of
+//!                           output data, i.e. serialized size + pad)                              -> ok
 //!   send <tid>              submit a tx built by `make` (when its id is already inside the proposal
 //!                           window it enters as Proposed -> the incremental update_transactions path) -> ok
 //!   propose <tid,..>        a ChainBuilder block on the tip proposing these ids is processed          -> ok
@@ -324,7 +328,20 @@ fn fail(stale: bool, out: &mut Out, class: &str, detail: &str) {
 }
 
 fn check_template(w: &mut World, out: &mut Out, mine: bool) -> Option<BlockView> {
-    let tmpl = match w.tpc().get_block_template(None, None, None) {
+    check_template_args(w, out, mine, None)
+}
+
+/// `args` = get_block_template's (bytes_limit, proposals_limit, max_version); whatever the caller asks
+/// for, what is handed out must be acceptable to the node itself
+fn check_template_args(w: &mut World, out: &mut Out, mine: bool, args: Option<(u64, u64, u32)>) -> Option<BlockView> {
+    let (a, b, c) = match args {
+        Some((b, p, v)) => (Some(b), Some(p), Some(v)),
+        None => (None, None, None),
+    };
+    if args.is_some() {
+        out.count("template-with-arg-limits");
+    }
+    let tmpl = match w.tpc().get_block_template(a, b, c) {
         Ok(Ok(t)) => t,
         other => {
             out.count("template-error");
@@ -362,6 +379,29 @@ fn check_template(w: &mut World, out: &mut Out, mine: bool) -> Option<BlockView>
     }
     if size + 400 > cons.max_block_bytes {
         out.count("template-size-near-limit");
+    }
+    if size == cons.max_block_bytes {
+        out.count("template-size-exactly-max");
+    } else if size + 10 > cons.max_block_bytes && size <= cons.max_block_bytes {
+        out.count("template-size-within-one-proposal-id");
+    } else if size + 228 > cons.max_block_bytes && size <= cons.max_block_bytes {
+        out.count("template-size-within-one-uncle");
+    }
+    if block.data().proposals().len() as u64 == cons.max_block_proposals_limit {
+        out.count("template-proposals-at-limit");
+    }
+    if block.uncles().hashes().len() == cons.max_uncles_num && cons.max_uncles_num > 0 {
+        out.count("template-uncles-at-limit");
+    }
+    {
+        // the template is for the first / last block of an epoch
+        let e = block.epoch();
+        if e.index() == 0 && block.number() > 0 {
+            out.count("template-first-block-of-epoch");
+        }
+        if e.index() + 1 == e.length() {
+            out.count("template-last-block-of-epoch");
+        }
     }
     if cycles > cons.max_block_cycles {
         fail(stale, out, "template-cycles", &format!("{} cycles={} max={}", detail(&block), cycles, cons.max_block_cycles));
@@ -528,6 +568,7 @@ fn do_select(w: &mut World, out: &mut Out, sl: u64, cl: u64) {
     // closures + hypotheses, computed from the implementation's own calc_ancestors/calc_descendants
     let ids: HashSet<ProposalShortId> = r.dump.entries.iter().map(|e| e.id.clone()).collect();
     let mut links_ok = true;
+    let mut exact_ok = true;
     let mut agg_ok = true;
     let mut key_ok = true;
     for e in &r.dump.entries {
@@ -548,6 +589,21 @@ fn do_select(w: &mut World, out: &mut Out, sl: u64, cl: u64) {
                 links_ok = false;
             }
         }
+        // LinksExact (hypothesis of selected_parents_first): acyclic, direct parents are ancestors,
+        // calc_descendants is the exact inverse of calc_ancestors
+        if a.contains(&e.id) {
+            exact_ok = false;
+        }
+        if let Some((ps, _)) = links.get(&e.id) {
+            if !ps.iter().all(|p| a.contains(p)) {
+                exact_ok = false;
+            }
+        }
+        for x in a {
+            if !r.desc.get(x).map_or(false, |dx| dx.contains(&e.id)) {
+                exact_ok = false;
+            }
+        }
         let t = &e.entry;
         let sum = |f: &dyn Fn(&ckb_tx_pool::verif::EntryDump) -> u64| -> u64 { a.iter().filter_map(|x| by_id.get(x)).map(|x| f(x)).sum() };
         if t.ancestors_count != a.len() + 1
@@ -561,7 +617,10 @@ fn do_select(w: &mut World, out: &mut Out, sl: u64, cl: u64) {
             key_ok = false;
         }
     }
-    out.op("hyp", &format!("links={} agg={} key={}", links_ok as u8, agg_ok as u8, key_ok as u8));
+    out.op("hyp", &format!("links={} exact={} agg={} key={}", links_ok as u8, exact_ok as u8, agg_ok as u8, key_ok as u8));
+    if !exact_ok {
+        out.count("view-links-not-exact");
+    }
     if !agg_ok {
         out.count("view-aggregates-stale");
         w.stale_op = Some(w.op_no);
@@ -732,7 +791,16 @@ fn exec(w: &mut Option<World>, out: &mut Out, base: &Path, line: &str) {
                             w.out_point(t, i)
                         })
                         .collect();
-                    let tx = spend_tx(&inputs, ts[3].parse().unwrap(), ts[4].parse().unwrap(), tid as u64);
+                    let mut tx = spend_tx(&inputs, ts[3].parse().unwrap(), ts[4].parse().unwrap(), tid as u64);
+                    if ts.len() > 5 {
+                        // optional <pad>: that many extra bytes in the first output's data (size + pad)
+                        let pad: usize = ts[5].parse().unwrap();
+                        let mut data: Vec<packed::Bytes> = tx.outputs_data().into_iter().collect();
+                        let mut d0: Vec<u8> = data[0].raw_data().to_vec();
+                        d0.extend(std::iter::repeat(0u8).take(pad));
+                        data[0] = d0.pack();
+                        tx = tx.as_advanced_builder().set_outputs_data(data).build();
+                    }
                     w.tid_by_short.insert(tx.proposal_short_id(), tid);
                     w.tid_by_hash.insert(tx.hash(), tid);
                     w.txs.push(tx);
@@ -744,7 +812,12 @@ fn exec(w: &mut Option<World>, out: &mut Out, base: &Path, line: &str) {
                     let proposed_now = w.main.shared.snapshot().proposals().contains_proposed(&tx.proposal_short_id());
                     match w.tpc().submit_local_tx(tx) {
                         Ok(Ok(())) => out.count(if proposed_now { "send-accepted-as-proposed" } else { "send-accepted" }),
-                        Ok(Err(_)) => out.count("send-rejected"),
+                        Ok(Err(e)) => {
+                            if std::env::var("C13_DEBUG").is_ok() {
+                                eprintln!("send {tid} rejected: {e}");
+                            }
+                            out.count("send-rejected")
+                        }
                         Err(_) => out.count("submit-error"),
                     }
                     out.op(line, "ok");
@@ -769,7 +842,12 @@ fn exec(w: &mut Option<World>, out: &mut Out, base: &Path, line: &str) {
                     out.op(line, "ok");
                 }
                 "template" => {
-                    check_template(w, out, false);
+                    if ts.len() == 4 {
+                        let n = nums(&ts[1..]);
+                        check_template_args(w, out, false, Some((n[0], n[1], n[2] as u32)));
+                    } else {
+                        check_template(w, out, false);
+                    }
                     out.op(line, "ok");
                 }
                 "mine" => {
@@ -1191,6 +1269,222 @@ fn gen_fill_case(out: &mut Out, base: &Path, rng: &mut Rng, variant: u64) {
     }
 }
 
+/// All orders of the three incremental update paths on ONE tip. `k % 6` selects the order of
+/// P (Proposed transactions arrive one by one -> `update_transactions`), U (candidate uncles ->
+/// `update_uncles`) and N (new pending transactions -> `update_proposals`); `(k / 6) % 4` the way the
+/// block is filled by P: 0 = exactly `max_block_bytes`, 1 = less than one proposal id (10 bytes) left,
+/// 2 = less than one uncle (228 bytes) left, 3 = the cycles limit binds instead of bytes. The premade
+/// 16 transactions have 1..3 inputs and 1..6 outputs so that subset sums are dense (exact fills exist); a
+/// CPFP pair (large low-fee parent, high-fee child) is sent when the block is nearly full; in half of
+/// the cases the tip is the LAST block of its epoch (the template is the first block of the next
+/// epoch and siblings of the tip are candidates of the old epoch); `max_block_proposals_limit` is small
+/// in half of the cases so that proposals sit at the limit; templates are also requested with
+/// `get_block_template` argument limits below the consensus values; the case ends with a tip change
+/// (blank + full update) followed by an old-epoch and a new-epoch uncle.
+fn gen_order_case(out: &mut Out, base: &Path, rng: &mut Rng, k: u64) {
+    const PERMS: [[char; 3]; 6] = [['P', 'U', 'N'], ['P', 'N', 'U'], ['U', 'P', 'N'], ['U', 'N', 'P'], ['N', 'P', 'U'], ['N', 'U', 'P']];
+    let perm = PERMS[(k % 6) as usize];
+    let mode = (k / 6) % 4;
+    let w_close = rng.range(1, 2);
+    let w_far = w_close + 5;
+    let epoch_len = rng.range(7, 10);
+    let max_bytes = if mode == 3 { 597_000 } else { rng.range(2600, 4400) };
+    let max_cycles = if mode == 3 { 537 * rng.range(3, 7) + rng.below(2) * 100 } else { 3_500_000_000 };
+    let max_props = *rng.pick(&[6u64, 8, 9, 1500]);
+    let interval = *rng.pick(&[0u64, 0, 5]);
+    let epoch_end = rng.chance(1, 2);
+    let cfgl = format!("cfg {} {} {} {} {} {} 2 {} 25", epoch_len, w_close, w_far, max_bytes, max_cycles, max_props, interval);
+    out.begin_case(&format!("order {}{}{} mode={mode} bytes={max_bytes} cycles={max_cycles} props={max_props} epoch_end={}", perm[0], perm[1], perm[2], epoch_end as u8));
+    let mut w: Option<World> = None;
+    exec(&mut w, out, base, &cfgl);
+    let settle = format!("wait {}", if interval > 0 { interval + 4 } else { 3 });
+    let mut fp = format!("order{}{}{}m{mode}e{}", perm[0], perm[1], perm[2], epoch_end as u8);
+    let mut run = |w: &mut Option<World>, out: &mut Out, l: &str| {
+        fp.push(l.as_bytes()[0] as char);
+        exec(w, out, base, l);
+    };
+    // premade fillers (1..3 inputs, 1..6 outputs), then the CPFP parent (6 outputs, low fee) and its child
+    let mut shape: Vec<(usize, u64)> = vec![(1, 1), (1, 1), (2, 1), (1, 2), (2, 2), (3, 2), (1, 3), (2, 3), (1, 4), (3, 4), (2, 5), (1, 6)];
+    for _ in 0..2 {
+        shape.push((rng.range(1, 2) as usize, rng.range(1, 5)));
+    }
+    // fillers 1..=np; adjusters np+1..=np+8: eight variants of ONE transaction (same input, 1..8 bytes of
+    // padding) of which at most one is ever sent, so that an exact fill exists for almost every room;
+    // CPFP parent np+9, child np+10
+    let np = shape.len();
+    const NADJ: usize = 8;
+    let cp = np + NADJ + 1;
+    let n_all = (np + NADJ + 2) as u64;
+    let n_chunks = (n_all + max_props.min(n_all) - 1) / max_props.min(n_all);
+    // blocks still to come before the tip the scenario plays on
+    let after = n_chunks + (w_close - 1);
+    for _ in 0..rng.range(1, 3) {
+        run(&mut w, out, "mine 1");
+    }
+    if epoch_end {
+        // align: after `after` more blocks the tip is the last block of its epoch
+        loop {
+            let (tipn, start, len) = {
+                let world = w.as_ref().unwrap();
+                let snap = world.main.shared.snapshot();
+                let e = snap.epoch_ext();
+                (snap.tip_number(), e.start_number(), e.length())
+            };
+            if (tipn - start + after) % len == len - 1 {
+                break;
+            }
+            run(&mut w, out, "mine 1");
+        }
+    }
+    let mut cell = 0usize;
+    for (k, (n_in, n_out)) in shape.iter().enumerate() {
+        let ins = (0..*n_in).map(|j| format!("0.{}", cell + j)).collect::<Vec<_>>().join(",");
+        cell += n_in;
+        let fee = *rng.pick(&[1000u64, 5000, 100_000, 100_000]);
+        run(&mut w, out, &format!("make {} {} {} {}", k + 1, ins, n_out, fee));
+    }
+    for j in 0..NADJ {
+        run(&mut w, out, &format!("make {} 0.{} 1 2000 {}", np + 1 + j, cell, j + 1));
+    }
+    cell += 1;
+    run(&mut w, out, &format!("make {} 0.{} 6 1000", cp, cell));
+    cell += 1;
+    run(&mut w, out, &format!("make {} {}.0 1 {}", cp + 1, cp, *rng.pick(&[200_000u64, 1_000_000])));
+    let ids: Vec<usize> = (1..=cp + 1).collect();
+    for ch in ids.chunks(max_props.min(n_all) as usize) {
+        run(&mut w, out, &format!("propose {}", ch.iter().map(|x| x.to_string()).collect::<Vec<_>>().join(",")));
+    }
+    for _ in 0..(w_close - 1) {
+        run(&mut w, out, "mine 1");
+    }
+    run(&mut w, out, &settle);
+    {
+        let world = w.as_ref().unwrap();
+        let snap = world.main.shared.snapshot();
+        let e = snap.epoch_ext();
+        if snap.tip_number() == e.start_number() + e.length() - 1 {
+            out.count("order-tip-is-last-block-of-epoch");
+        }
+    }
+    let mut next_tid = cp + 2;
+    let mut next_cell = cell;
+    let mut tmpl_no = 0u64;
+    for ph in perm.iter() {
+        match ph {
+            'P' => {
+                let world = w.as_ref().unwrap();
+                let room = match world.tpc().verif_assembler_size() {
+                    Ok(Some(r)) => world.consensus.max_block_bytes.saturating_sub((r[7] + r[6]) as u64),
+                    _ => 0,
+                };
+                let sizes: Vec<u64> = (0..np + NADJ).map(|k| world.txs[k].data().serialized_size_in_block() as u64).collect();
+                let mut order: Vec<usize> = if mode == 3 {
+                    (0..np).collect()
+                } else {
+                    let slack = match mode {
+                        0 => 0,
+                        1 => rng.range(1, 9),
+                        _ => rng.range(10, 227),
+                    };
+                    // fillers (+ at most one adjuster variant) whose sum is closest to room - slack from below
+                    let target = room.saturating_sub(slack);
+                    let mut best = (0u64, 0u32, None::<usize>);
+                    'search: for adj in std::iter::once(None).chain((0..NADJ).map(Some)) {
+                        let extra = adj.map_or(0, |j| sizes[np + j]);
+                        for m in 0u32..(1u32 << np) {
+                            let mut sum = extra;
+                            let mut mm = m;
+                            while mm != 0 {
+                                sum += sizes[mm.trailing_zeros() as usize];
+                                mm &= mm - 1;
+                            }
+                            if sum <= target && sum > best.0 {
+                                best = (sum, m, adj);
+                                if sum == target {
+                                    break 'search;
+                                }
+                            }
+                        }
+                    }
+                    let left = room.saturating_sub(best.0);
+                    out.count(if left == 0 { "order-fill-exact" } else if left < 10 { "order-fill-left-lt-proposal-id" } else if left < 228 { "order-fill-left-lt-uncle" } else { "order-fill-loose" });
+                    let mut o: Vec<usize> = (0..np).filter(|k| best.1 >> k & 1 == 1).collect();
+                    if let Some(j) = best.2 {
+                        o.push(np + j);
+                    }
+                    o
+                };
+                rng.shuffle(&mut order);
+                for (i, k) in order.iter().enumerate() {
+                    run(&mut w, out, &format!("send {}", k + 1));
+                    if i % 3 == 2 && rng.chance(1, 2) {
+                        run(&mut w, out, "wait 2");
+                    }
+                }
+                run(&mut w, out, &settle);
+                run(&mut w, out, "template");
+                // CPFP near the limit: child first (orphan until the parent arrives) or parent first
+                if rng.chance(1, 2) {
+                    run(&mut w, out, &format!("send {}", cp));
+                    run(&mut w, out, &format!("send {}", cp + 1));
+                } else {
+                    run(&mut w, out, &format!("send {}", cp + 1));
+                    run(&mut w, out, &format!("send {}", cp));
+                    run(&mut w, out, &format!("send {}", cp + 1));
+                }
+            }
+            'U' => {
+                for _ in 0..rng.range(1, 3) {
+                    // siblings of the tip, some of them carrying proposals (excluded from package_proposals)
+                    run(&mut w, out, &format!("uncle 0 {}", rng.below(3)));
+                }
+                if rng.chance(1, 3) {
+                    run(&mut w, out, "uncle 1 0");
+                }
+            }
+            _ => {
+                let n = if max_props <= 9 { max_props + rng.below(3) } else { rng.range(3, 10) };
+                for _ in 0..n {
+                    if next_cell >= 40 {
+                        break;
+                    }
+                    run(&mut w, out, &format!("submit {} 0.{} 1 {}", next_tid, next_cell, *rng.pick(&[1000u64, 5000])));
+                    next_tid += 1;
+                    next_cell += 1;
+                }
+            }
+        }
+        run(&mut w, out, &settle);
+        tmpl_no += 1;
+        if tmpl_no % 2 == 0 {
+            run(&mut w, out, "template");
+        } else {
+            // argument limits below the consensus values
+            run(&mut w, out, &format!("template {} {} 0", rng.range(300, max_bytes.min(5000)), rng.below(max_props.min(10) + 1)));
+        }
+    }
+    run(&mut w, out, "select 1000000 3500000000");
+    run(&mut w, out, &format!("select {} {}", rng.range(300, 1500), max_cycles));
+    // tip change: blank + full update; then candidates of the old and of the new epoch
+    run(&mut w, out, "mine 1");
+    run(&mut w, out, "uncle 1 0");
+    run(&mut w, out, "uncle 0 1");
+    run(&mut w, out, &settle);
+    run(&mut w, out, "template");
+    if next_cell < 40 {
+        run(&mut w, out, &format!("submit {} 0.{} 1 1000", next_tid, next_cell));
+        run(&mut w, out, &settle);
+        run(&mut w, out, "template 1000 1 0");
+    }
+    run(&mut w, out, "mine 1");
+    run(&mut w, out, "mine 1");
+    drop(run);
+    out.nontrivial(fp);
+    if let Some(world) = w.take() {
+        world.finish();
+    }
+}
+
 pub fn run(opts: &Opts) {
     let base = scratch_dir(&opts.out, "c13");
     let mut out = Out::new(&opts.out);
@@ -1227,14 +1521,20 @@ pub fn run(opts: &Opts) {
             exec(&mut None, &mut out, &base, &l);
         }
         let cases = if opts.thorough() { 90 } else { 10 } * opts.scale;
-        let fills = if opts.thorough() { 60 } else { 9 } * opts.scale;
-        for i in 0..cases.max(fills) {
+        let fills = if opts.thorough() { 60 } else { 6 } * opts.scale;
+        // 24 = every order (6) x every fill mode (4); the seed rotates which combination comes first
+        let orders = if opts.thorough() { 72 } else { 24 } * opts.scale;
+        let rot = opts.seed % 24;
+        for i in 0..cases.max(fills).max(orders) {
             if i < cases {
                 let steps = rng.range(40, 90);
                 gen_case(&mut out, &base, &mut rng, steps);
             }
             if i < fills {
                 gen_fill_case(&mut out, &base, &mut rng, i % 3);
+            }
+            if i < orders {
+                gen_order_case(&mut out, &base, &mut rng, i + rot);
             }
         }
     }
